@@ -2,7 +2,7 @@
 ambient perturbation and prints {"<config>#<seed>": digest} as JSON on the last stdout line.
 
 usage: python -m vf.c07_child <mode> <seeds comma separated>
-mode: plain | perturb_a | perturb_b | prior_run | twice | reuse | trap"""
+mode: plain | perturb_a | perturb_b | prior_run | twice | reuse | trap | logger_none | logger_base | logger_saver"""
 import copy
 import glob
 import hashlib
@@ -19,7 +19,9 @@ common.import_pams()
 import numpy as np  # noqa: E402
 from pams import Market  # noqa: E402
 from pams.agents import Agent, FCNAgent  # noqa: E402
+from pams.events import EventABC, EventHook  # noqa: E402
 from pams.logs.base import Logger  # noqa: E402
+from pams.logs.market_step_loggers import MarketStepSaver  # noqa: E402
 from pams.runners.sequential import SequentialRunner  # noqa: E402
 
 CUR = None  # hashlib object of the run in progress
@@ -34,6 +36,51 @@ class ExtendedMarket(Market):  # user class of samples/market_share
 
 class UserDefinedFCNAgent(FCNAgent):  # user class of samples/user_class
     pass
+
+
+class UserEffectEvent(EventABC):
+    """user event: every hook type, each call nudges the target market's fundamental price (so a hook
+    call that is skipped, repeated or made conditionally on something outside the configuration shows)"""
+
+    def setup(self, settings, *a, **k):
+        self.target = self.simulator.name2market[settings["target"]]
+        self.n = 0
+
+    def hook_registration(self):
+        hs = [EventHook(self, t, b) for t in ("order", "cancel", "session", "market") for b in (True, False)]
+        hs.append(EventHook(self, "execution", False))
+        return hs
+
+    def _nudge(self, k):
+        self.n += 1
+        self.target.change_fundamental_price(1.0 + (k + self.n % 3) * 1e-4)
+
+    def hooked_before_order(self, simulator, order):
+        self._nudge(1)
+
+    def hooked_after_order(self, simulator, order_log):
+        self._nudge(2)
+
+    def hooked_before_cancel(self, simulator, cancel):
+        self._nudge(3)
+
+    def hooked_after_cancel(self, simulator, cancel_log):
+        self._nudge(4)
+
+    def hooked_after_execution(self, simulator, execution_log):
+        self._nudge(5)
+
+    def hooked_before_session(self, simulator, session):
+        self._nudge(6)
+
+    def hooked_after_session(self, simulator, session):
+        self._nudge(7)
+
+    def hooked_before_step_for_market(self, simulator, market):
+        self._nudge(8)
+
+    def hooked_after_step_for_market(self, simulator, market):
+        self._nudge(9)
 
 
 def _fmt(v):
@@ -106,6 +153,7 @@ def family():
         "Limit": {"class": "PriceLimitRule", "targetMarkets": ["A", "B"], "triggerChangeRate": 0.05},
         "Halt": {"class": "TradingHaltRule", "targetMarkets": ["A"], "triggerChangeRate": 0.02, "haltingTimeLength": 2},
         "Mistake": {"class": "OrderMistakeShock", "target": "B", "triggerTime": 3, "priceChangeRate": -0.05, "orderVolume": 20, "orderTimeLength": 4},
+        "UserEv": {"class": "UserEffectEvent", "target": "A"},
     }
 
     def all_types(evs):
@@ -140,7 +188,9 @@ def family():
     del nocorr["simulation"]["fundamentalCorrelations"]
     fam["all_types:nocorr"] = nocorr
     fam["zz_all_types:nocorr_again"] = copy.deepcopy(nocorr)
-    names = sorted(events)
+    fam["all_types:UserEv"] = all_types(["UserEv"])
+    fam["all_types:Halt+UserEv"] = all_types(["Halt", "UserEv"])
+    names = sorted(e for e in events if e != "UserEv")
     for e in names:
         fam["all_types:%s" % e] = all_types([e])
     for i, a in enumerate(names):
@@ -199,25 +249,36 @@ def full_family():
 # ------------------------------------------------------------------------------------------------ one run
 
 
+LOGGER = "rec"  # rec | none | base | saver
+
+
 def run_one(cfg, seed, settings_obj=None):
+    """-> (digest of everything observable incl. every log record and callback, settings mutated?,
+    digest of the end state only: comparable between runs with different loggers attached)"""
     global CUR
     CUR = hashlib.sha256()
     settings = settings_obj if settings_obj is not None else copy.deepcopy(cfg)
     before = copy.deepcopy(settings)
-    lg = RecLogger()
+    lg = {"rec": RecLogger, "none": lambda: None, "base": Logger, "saver": MarketStepSaver}[LOGGER]()
     r = SequentialRunner(settings, random.Random(seed), lg)
     r.class_register(ExtendedMarket)
     r.class_register(UserDefinedFCNAgent)
+    r.class_register(UserEffectEvent)
     r._setup()
     r._run()
     sim = r.simulator
+    st = hashlib.sha256()
     for m in sim.markets:
-        CUR.update(repr((m.name, m.get_market_prices(), m.get_fundamental_prices(), m.get_executed_volumes(), m.get_mid_prices(),
-                         m.get_last_executed_prices(), m.get_executed_total_prices(), m.get_n_buy_orders(), m.get_n_sell_orders())).encode())
+        x = repr((m.name, m.get_market_prices(), m.get_fundamental_prices(), m.get_executed_volumes(), m.get_mid_prices(),
+                  m.get_last_executed_prices(), m.get_executed_total_prices(), m.get_n_buy_orders(), m.get_n_sell_orders())).encode()
+        CUR.update(x)
+        st.update(x)
     for a in sim.agents:
-        CUR.update(repr((a.name, a.cash_amount, sorted(a.asset_volumes.items()))).encode())
+        x = repr((a.name, a.cash_amount, sorted(a.asset_volumes.items()))).encode()
+        CUR.update(x)
+        st.update(x)
     mutated = settings != before
-    return CUR.hexdigest()[:20], mutated
+    return CUR.hexdigest()[:20], mutated, st.hexdigest()[:20]
 
 
 TRAPPED = []
@@ -258,7 +319,10 @@ def install_traps():
 
 
 def main():
+    global LOGGER
     mode = sys.argv[1]
+    if mode.startswith("logger_"):
+        LOGGER = mode[len("logger_"):]
     seeds = [int(x) for x in sys.argv[2].split(",")]
     only = sys.argv[3].split("|") if len(sys.argv) > 3 and sys.argv[3] else None
     fam = full_family()
@@ -288,19 +352,19 @@ def main():
             key = "%s#%d" % (name, seed)
             try:
                 if mode == "twice":
-                    d1, m1 = run_one(cfg, seed)
-                    d2, m2 = run_one(cfg, seed)
-                    out[key] = [d1 if d1 == d2 else "DIFF:%s/%s" % (d1, d2), m1 or m2]
+                    d1, m1, s1 = run_one(cfg, seed)
+                    d2, m2, s2 = run_one(cfg, seed)
+                    out[key] = [d1 if d1 == d2 else "DIFF:%s/%s" % (d1, d2), m1 or m2, s1]
                 elif mode == "reuse":
                     obj = copy.deepcopy(cfg)
-                    d1, m1 = run_one(cfg, seed, settings_obj=obj)
-                    d2, m2 = run_one(cfg, seed, settings_obj=obj)
-                    out[key] = [d1 if d1 == d2 else "DIFF:%s/%s" % (d1, d2), m1 or m2]
+                    d1, m1, s1 = run_one(cfg, seed, settings_obj=obj)
+                    d2, m2, s2 = run_one(cfg, seed, settings_obj=obj)
+                    out[key] = [d1 if d1 == d2 else "DIFF:%s/%s" % (d1, d2), m1 or m2, s1]
                 else:
-                    d, m = run_one(cfg, seed)
-                    out[key] = [d, m]
+                    d, m, st = run_one(cfg, seed)
+                    out[key] = [d, m, st]
             except Exception as e:  # noqa
-                out[key] = ["EXC:%s:%s" % (type(e).__name__, str(e)[:160]), False]
+                out[key] = ["EXC:%s:%s" % (type(e).__name__, str(e)[:160]), False, "EXC"]
     print("C07CHILD " + json.dumps(out, sort_keys=True))
 
 
